@@ -57,12 +57,15 @@ class Ctx:
 
     # ------------------------------------------------------------------ model checking
     def mc(self, module, cfg_text, name=None, workers=None, timeout=1500, coverage=True, expect_actions=(),
-           simulate=None, depth=None, env=None, heap="8g", allow_violation=False):
+           simulate=None, depth=None, env=None, heap="8g", allow_violation=False, cwd=None):
         """Exhaustive (or simulated) TLC run of spec/<module>.tla under the given cfg text."""
         name = name or module
         cfg = common.write_cfg(os.path.join(self.work, name + ".cfg"), cfg_text)
         r = common.tlc(module, cfg=cfg, workers=workers or common.NCPU, timeout=timeout, coverage=coverage,
-                       simulate=simulate, depth=depth, seed=self.seed if simulate else None, env=env, heap=heap)
+                       simulate=simulate, depth=depth, seed=self.seed if simulate else None, env=env, heap=heap,
+                       cwd=cwd or common.SPEC)
+        if not r.ok and not r.violated:
+            raise MachineryError("TLC failed on %s/%s:\n%s" % (module, name, r.out[-2500:]))
         self.checker_cmds.append("tlc -config %s.cfg %s" % (name, module))
         if r.rc == 124:
             raise MachineryError("TLC timeout on %s/%s" % (module, name))
@@ -82,8 +85,6 @@ class Ctx:
             trace = self._counterexample(r.out)
             self.violations.append(("model:%s:%s" % (name, r.violated), {"module": module, "config": name,
                                                                        "cfg": cfg_text, "counterexample": trace}))
-        elif not r.ok and not r.violated:
-            raise MachineryError("TLC failed on %s/%s:\n%s" % (module, name, r.out[-2500:]))
         return r
 
     @staticmethod
@@ -138,14 +139,15 @@ class Ctx:
             results = list(ex.map(one, paths))
         self.checker_cmds.append("tlc -config %s.cfg %s  (TRACE_FILE=<shard>, %d shards)" % (module, module, len(paths)))
         for p, r, sh in zip(paths, results, shards):
-            got = 0
+            got = set()
             for v in r.printed():
                 if isinstance(v, list) and len(v) >= 4 and v[0] == "V":
-                    verdicts[v[1]] = (v[2], v[3], v[4] if len(v) > 4 else None)
-                    got += 1
-            if got != len(sh):
+                    if v[1] not in got:       # TLC may evaluate an action (and its PrintT) more than once
+                        verdicts[v[1]] = (v[2], v[3], v[4] if len(v) > 4 else None)
+                    got.add(v[1])
+            if got != {e["id"] for e in sh}:
                 raise MachineryError("trace validation of %s incomplete: %d of %d verdicts\n%s" %
-                                     (p, got, len(sh), r.out[-3000:]))
+                                     (p, len(got), len(sh), r.out[-3000:]))
             os.unlink(p)
         byid = {e["id"]: e for e in events}
         for i, (clause, kf, detail) in verdicts.items():
